@@ -183,13 +183,15 @@ let run_pair (pair : string) (cfgs : string) : string =
 (* ---- version gate ---------------------------------------------------------------------------------------------- *)
 let hex4 (x : n) = Printf.sprintf "%04x" (int_of_n x)
 
-let run_vgate (role : string) (vers : string) (suiteset : string) : string =
+let rec run_vgate (role : string) (vers : string) (suiteset : string) : string = run_vgate_c role vers suiteset "00"
+and run_vgate_c (role : string) (vers : string) (suiteset : string) (comp : string) : string =
   let mode = mode_of_role role in
   let cfg = parse_cfg "auth=0,su=d,cc=0,vf=0,tk=0,np=0" in
   let s = server_config mode cfg ~own_suites:false in
   let gmids = [hexn "e013"; hexn "e053"] and tlsids = [hexn "002f"; hexn "c02f"; hexn "c013"; hexn "009c"] in
   let suites = match suiteset with "gm" -> gmids | "tls" -> tlsids | _ -> gmids @ tlsids in
-  let ch = { ch_vers = hexn vers; ch_random = peer_cr; ch_session_id = TNil; ch_suites = suites; ch_comp_null = true;
+  let ch = { ch_vers = hexn vers; ch_random = peer_cr; ch_session_id = TNil; ch_suites = suites;
+             ch_comp_null = comp_offers_null (bytes_of_hex comp);
              ch_reneg_nonempty = false; ch_ticket_supported = false; ch_ticket = TNil; ch_npn = false; ch_alpn = false;
              ch_elliptic_ok = true; ch_ocsp = false } in
   let (st, _) = server_step s server_init (IHs (MClientHello ch)) in
@@ -519,7 +521,11 @@ let run_r (victim : string) (suite : string) (cfgs : string) (chv : string) (pac
     let c0 = client_init ccfg in
     (* first flight: the ClientHello, with the scripted client_version *)
     let outs0 = List.map (fun o -> match o with
-        | OHs (MClientHello ch) -> OHs (MClientHello { ch with ch_vers = hexn chv }) | o -> o) c0.cs_out in
+        | OHs (MClientHello ch) ->
+          OHs (MClientHello { ch with ch_vers = hexn chv;
+                                      ch_comp_null = (if List.mem_assoc "cm" cfg then comp_offers_null (bytes_of_hex (get cfg "cm"))
+                                                      else ch.ch_comp_null) })
+        | o -> o) c0.cs_out in
     let ((s1, lo1), sstat1) = rfeed (server_step scfg) server_wants_ccs server_init false PRunning
         (pack_flight msg_name_c2s outs0 (nth_flight fl 0)) in
     (match sstat1 with
@@ -697,6 +703,7 @@ let handle (f : string array) : string =
   | "S" -> run_script f.(2) f.(3) f.(4)
   | "H" -> run_pair f.(2) f.(3)
   | "V" -> run_vgate f.(2) f.(3) f.(4)
+  | "VC" -> run_vgate_c f.(2) f.(3) f.(4) f.(5)
   | "R" -> run_r f.(2) f.(3) f.(4) f.(5) f.(6)
   | "AN" -> run_an f.(2) f.(4) f.(5)
   | "AS" -> run_as f.(2) f.(3) f.(4)
